@@ -1,15 +1,19 @@
 import DendroModel.Theory.C02Stmt
 import DendroModel.Theory.C02Assign
+import DendroModel.Theory.C02Fuel
 /-! C02 — property theorems about the model of `Model/C02.lean` (the definitions `drv_c02` executes).
 
 Every `theorem` directly inside `namespace DendroModel.C02` of this file is an obligation; helper lemmas live in
 `DendroModel.C02.Aux` (files `Theory/C02*.lean`).
 
 Shape of the argument for Newick (clauses a, b of the design):
-  characters  --token_roundtrip / statement_tokens-->  token kinds  --newick_tokens_roundtrip_partial-->  raw tree
-  --assign (labels → node labels / taxa, `newick_roundtrip`)-->  tree,  plus `rooting_roundtrip`, `carried_tree`.
-Not proved here (oracle and correspondence only): anonymous leaves (hypothesis `LL`), weights through `strip`,
-the NEXUS block grammar, NeXML. -/
+  characters  --token_roundtrip(_any) / statement_tokens-->  token kinds  --newick_tokens_roundtrip (every tree,
+  anonymous leaves included)-->  raw tree  --assign (labels → node labels / taxa)-->  tree: `newick_roundtrip`, and in
+  readable form `newick_roundtrip_tree` (= `[t]` with its rooting).  `tokenizer_fuel_suffices`: totality on every text.
+  Case folding is a parameter (`ROpts.cf`): the theorems hold for every folding, the driver is handed `str.lower`.
+Not proved here (enumeration, correspondence and oracle only): several statements in one text / a pre-filled
+namespace (the `parseStmts` loop across statements), weights through `strip`, the NEXUS block grammar, NeXML,
+float ↔ text. -/
 namespace DendroModel.C02
 open DendroModel.Tables
 
@@ -27,6 +31,21 @@ theorem tokenizer_tables :
     tokQuoteDoubling = true ∧ tokQuote = ['\''] ∧ (∀ c ∈ tokCommentBegin, c ∉ tokCommentEnd) ∧
     (∀ d ∈ tokCaptured, d ∉ tokUncaptured ∧ d ∉ tokQuote) ∧
     (∀ c ∈ ['(', ')', ',', ':', ';'], c ∈ tokCaptured ∧ c ∈ protectNewick ∧ c ∈ protectDefault) := by decide
+
+/-- totality of the tokenizer model on EVERY input text (not only writer output): `__next__` with the fuel `nextTok`
+    gives it never runs out of fuel, and the token stream of `tokenizeAll` is the same with any amount of extra fuel —
+    so an `ERR` of the `tokens` op is always an unterminated quote, never a fuel shortfall -/
+theorem tokenizer_fuel_suffices (pu : Bool) (inp : Str) :
+    nextTok pu inp ≠ .fuel ∧ ∀ k, tokenize pu (inp.length + 1 + k) inp = tokenizeAll pu inp := by
+  refine ⟨Aux.next_no_fuel pu _ inp [] (by omega), ?_⟩
+  intro k
+  induction k with
+  | zero => rfl
+  | succ k ih =>
+    rw [← ih, show inp.length + 1 + (k + 1) = (inp.length + 1 + k) + 1 by omega]
+    exact (Aux.tokenize_fuel_indep pu _ inp (by omega)).symm
+
+example : nextTok false "[a[b]] 'x''y' z_1;".toList ≠ .fuel := (tokenizer_fuel_suffices false _).1
 
 /-- clause (a): every admissible label (non-empty, over printable ASCII + tab + non-ASCII), written by the Newick
     writer's `escape_nexus_token` call under a consistent option triple and followed by any captured delimiter, is
@@ -46,25 +65,28 @@ theorem token_roundtrip_kind (ps uu pu : Bool) (hc : Consistent ps uu pu) (l : S
   exact ⟨q, h _ [], fun cm => Aux.kind_word_of_unprotected l q cm hne hk⟩
 
 open Aux in
-/-- clause (b), token level: the reader's recursive-descent parser, run on the token kinds of what the writer's
-    callbacks emit followed by `;`, returns exactly the tag / length / children structure that was written, consumes
-    exactly the statement and reports it complete.  `_partial`: hypothesis `LL` (every leaf writes a tag or a
-    length): anonymous leaves are covered by the correspondence and the oracle only. -/
-theorem newick_tokens_roundtrip_partial (o : WOpts) (t : NT) (h : LL (toRT o t)) (f : Nat)
-    (hf : 4 * (view (wrNode o true t)).length ≤ f) (rest : List Tok) :
+/-- clause (b), token level, for EVERY tree (anonymous leaves, unary nodes, polytomies included): the reader's
+    recursive-descent parser, run on the token kinds of what the writer's callbacks emit followed by `;`, returns
+    exactly the tag / length / children structure that was written, consumes exactly the statement and reports it
+    complete.  (`(A,)`, `(,A)`, `(,)`, `()` are instances: blank children are written as nothing.) -/
+theorem newick_tokens_roundtrip (o : WOpts) (t : NT) (f : Nat)
+    (hf : 6 * (view (wrNode o true t)).length + 3 ≤ f) (rest : List Tok) :
     parseNode f (view (wrNode o true t) ++ .semi :: rest) = some (toRT o t, rest, true) := by
   have hv := view_wrNode o t true
   simp only [if_true, List.nil_append] at hv
   rw [hv] at hf ⊢
-  have := rt (toRT o t) h f (Nat.le_trans (need_le _ h) hf) .semi rest
+  have := rt (toRT o t) f (Nat.le_trans (need_le _) hf) .semi rest
   simpa [Follow.tok, Follow.after] using this
+
+/-- the only tree a Newick statement cannot carry: a lone node without taxon, label and length (its text is `;`) -/
+def WritesSomething (o : WOpts) (t : NT) : Prop := Aux.isBlank (Aux.toRT o t) = false
 
 /-- character level: tokenizing the text `_write_tree` produces (plus the newline `as_string` appends) yields exactly
     the token kinds the writer's callbacks emitted, then `;`; no tokenizer error; the rooting / weight comments are
     attached to the first token and no other token carries a comment.  For every tree whose tags are over the label
     domain and whose length texts are number texts (`OkT`), under every consistent option triple. -/
 theorem statement_tokens (o : WOpts) (pu : Bool) (hc : Consistent o.ps o.uu pu) (rooting : Nat) (weight : Option Str)
-    (t : NT) (hok : OkT o t) (hll : Aux.LL (Aux.toRT o t)) (hw : ∀ w, weight = some w → LenOk w) :
+    (t : NT) (hok : OkT o t) (hll : WritesSomething o t) (hw : ∀ w, weight = some w → LenOk w) :
     ∃ first rest, tokenizeAll pu (writeTree o rooting weight t ++ ['\n']) = ⟨first :: rest, true, false⟩ ∧
       (first :: rest).map kind = Aux.view (wrNode o true t) ++ [.semi] ∧
       first.cm = comments o rooting weight ∧ ∀ x ∈ rest, x.cm = [] :=
@@ -75,10 +97,10 @@ open Aux in
     gives exactly one tree, whose structure is `decode ro (toRT o t)` (see `carried_tree`: that is `t` itself when the
     options fit the tree), whose rooting / weight come from the written comments (see `rooting_roundtrip`), over a
     namespace that lists the taxon labels of the tree in reading order.  Hypotheses: consistent options, admissible
-    labels and number texts, labelled leaves (`LL`), taxon labels distinct up to letter case. -/
+    labels and number texts, the tree writes something (`WritesSomething`), taxon labels distinct up to the case folding `ro.cf`. -/
 theorem newick_roundtrip (o : WOpts) (ro : ROpts) (hc : Consistent o.ps o.uu ro.pu) (rooting : Nat) (weight : Option Str)
-    (t : NT) (hok : OkT o t) (hll : LL (toRT o t)) (hw : ∀ w, weight = some w → LenOk w)
-    (hd : DistinctCI (taxaOf ro (toRT o t))) :
+    (t : NT) (hok : OkT o t) (hll : WritesSomething o t) (hw : ∀ w, weight = some w → LenOk w)
+    (hd : DistinctCI ro.cf (taxaOf ro (toRT o t))) :
     parseText ro {} (writeTree o rooting weight t ++ ['\n']) =
       some ([⟨(treeComments ro (comments o rooting weight) none none).1,
               (treeComments ro (comments o rooting weight) none none).2, decode ro (toRT o t)⟩],
@@ -94,16 +116,18 @@ theorem newick_roundtrip (o : WOpts) (ro : ROpts) (hc : Consistent o.ps o.uu ro.
   have hlen : (first :: rest).length = (view (wrNode o true t)).length + 1 := by
     have := congrArg List.length hkind
     simpa using this
-  have hparse := newick_tokens_roundtrip_partial o t hll (stmtFuel (first :: rest))
+  have hparse := newick_tokens_roundtrip o t (stmtFuel (first :: rest))
     (by simp only [stmtFuel, hlen]; omega) []
   have hassign := assign_fresh ro (toRT o t) {} [] rfl rfl (by simp) (by simpa using hd)
-  unfold parseText
-  rw [htok]
+  unfold parseText parseTextK
+  simp only [Nat.add_zero]
+  rw [show tokenize ro.pu ((writeTree o rooting weight t ++ ['\n']).length + 1) (writeTree o rooting weight t ++ ['\n']) =
+      tokenizeAll ro.pu (writeTree o rooting weight t ++ ['\n']) from rfl, htok]
   simp only [Bool.not_true, Bool.false_eq_true, if_false]
   rw [show (first :: rest).length + 2 = ((first :: rest).length + 1) + 1 by omega, parseStmts]
   have hsemi : (kind first == Tok.semi) = false := by simpa using hfirst
   simp only [hsemi, Bool.false_and, Bool.and_false, Bool.false_eq_true, if_false]
-  rw [hkind, hparse]
+  rw [hkind, Nat.add_zero, hparse]
   simp only [hassign, hcm]
   simp [skipSemis, parseStmts]
 
@@ -118,6 +142,7 @@ where CarriedL (ro : ROpts) : List NT → Prop
   | [] => True
   | c :: cs => Carried ro c ∧ CarriedL ro cs
 
+namespace Aux
 mutual
 /-- with the writer's default label options and edge lengths on, the structure that comes back is the tree itself -/
 theorem carried_tree (o : WOpts) (ro : ROpts) (ho : o.sltl = false ∧ o.slnl = true ∧ o.sitl = false ∧ o.sinl = false ∧ o.sel = false) :
@@ -169,6 +194,7 @@ theorem carried_treeL (o : WOpts) (ro : ROpts) (ho : o.sltl = false ∧ o.slnl =
   | c :: cs, h => by
     simp [Aux.toRTL, decodeL, carried_tree o ro ho c h.1, carried_treeL o ro ho cs h.2]
 end
+end Aux
 
 /-- rooting token emission and interpretation: a defined rooting state (1 unrooted, 2 rooted) survives when the token
     is written and the reader does not force the opposite, and also when it is suppressed and the reader forces it.
@@ -195,41 +221,89 @@ theorem rooting_roundtrip (o : WOpts) (ro : ROpts) (r : Nat) (hr : r = 1 ∨ r =
         simp [h1, treeComments, s1, isRootingComment, rootingState, h2] <;> decide
     · cases o.srt <;> simp [treeComments, s1, isRootingComment, rootingState, h2] <;> decide
 
-/-! ### non-vacuity: the hypotheses are satisfiable, on a tree with awkward labels -/
+/-- no weight comment written ⇒ no weight read -/
+theorem weight_absent (o : WOpts) (ro : ROpts) (r : Nat) :
+    (treeComments ro (comments o r none) none none).2 = none := by
+  have s1 : strip ['&', 'R'] = ['&', 'R'] := by decide
+  have s2 : strip ['&', 'U'] = ['&', 'U'] := by decide
+  unfold comments
+  cases h1 : (r == 0 || o.srt) <;> cases h2 : (r == 2) <;>
+    simp [treeComments, s1, s2, isRootingComment]
 
-/-- `('a=b':1.5,c_d,'e f(g)')in t;` as a model tree -/
+/-- the readable end-to-end claim for one Newick tree statement, on the definitions the driver runs (`write`, `parse`,
+    `rt` ops): under the writer's default label options, consistent underscore/space options and rooting options that
+    do not contradict each other, writing a tree `t` with a defined rooting state `r` and reading the text back into
+    a fresh namespace returns exactly `[t]` with rooting `r`.  Domain: tags over the label domain, number texts as
+    lengths (`OkT`), `t` is not the lone anonymous node (`WritesSomething`), each node carries what a Newick
+    statement can carry (`Carried`), taxon labels distinct up to the mapper's case folding. Anonymous leaves, unary
+    nodes and polytomies are included. -/
+theorem newick_roundtrip_tree (o : WOpts) (ro : ROpts) (hc : Consistent o.ps o.uu ro.pu)
+    (ho : o.sltl = false ∧ o.slnl = true ∧ o.sitl = false ∧ o.sinl = false ∧ o.sel = false)
+    (r : Nat) (hr : r = 1 ∨ r = 2)
+    (hdir : (o.srt = false ∧ (ro.rooting = 0 ∨ ro.rooting = 3 ∨ ro.rooting = 4 ∨ ro.rooting = r)) ∨ ro.rooting = r)
+    (t : NT) (hok : OkT o t) (hws : WritesSomething o t) (hcar : Carried ro t)
+    (hd : DistinctCI ro.cf (taxaOf ro (Aux.toRT o t))) :
+    parseText ro {} (writeTree o r none t ++ ['\n']) = some ([⟨r, none, t⟩], ⟨[], taxaOf ro (Aux.toRT o t), false⟩) := by
+  rw [newick_roundtrip o ro hc r none t hok hws (by simp) hd, Aux.carried_tree o ro ho t hcar,
+    rooting_roundtrip o ro r hr none (Or.inl rfl) hdir, weight_absent]
+
+open Aux in
+/-- clause (a) for BOTH protect classes (the default one is what TAXLABELS / TRANSLATE / tree names are written
+    with) and EVERY follower a writer produces: a captured delimiter, whitespace / newline, or the end of the text.
+    The token read is the label and the input left over is the follower up to leading whitespace. -/
+theorem token_roundtrip_any (p : List Char) (hp : p = protectDefault ∨ p = protectNewick)
+    (ps uu pu : Bool) (hc : Consistent ps uu pu) (l : Str) (hne : l ≠ []) (hdom : ∀ c ∈ l, labelChar c = true)
+    (suf : Str) (hs : suf = [] ∨ ∃ d rest, suf = d :: rest ∧ (d ∈ tokCaptured ∨ d ∈ tokUncaptured)) :
+    ∃ q r', nextTok pu (escape ps (!uu) p l ++ suf) = .tok l q [] r' ∧ skipWs r' = skipWs suf := by
+  have hP : Covers p := by rcases hp with rfl | rfl; exact covers_default; exact covers_newick
+  have hfo : Follower suf ∧ skipWs (plainAfter suf) = skipWs suf := by
+    rcases hs with rfl | ⟨d, rest, rfl, hd | hd⟩
+    · exact ⟨⟨trivial, trivial⟩, rfl⟩
+    · obtain ⟨h1, h2⟩ := follower_cap d hd rest
+      exact ⟨h1, by rw [h2]⟩
+    · obtain ⟨h1, h2⟩ := follower_ws d hd rest
+      have : isUncap d = true := by simpa [isUncap] using hd
+      exact ⟨h1, by rw [h2]; simp [skipWs, this]⟩
+  obtain ⟨q, h, _⟩ := next_escape_gen p hP ps uu pu hc l hne hdom suf hfo.1
+  refine ⟨q, _, h _ [], ?_⟩
+  cases q
+  · simpa using hfo.2
+  · simp
+
+/-! ### non-vacuity: the hypotheses are satisfiable, on trees with awkward labels and anonymous leaves -/
+
+/-- `('a=b':1.5,c_d,'e f(g)':1e-05,)'in t';` as a model tree (last child: an anonymous leaf) -/
 def exampleTree : NT :=
   .node none (some "in t".toList) none
     [.node (some "a=b".toList) none (some "1.5".toList) [],
      .node (some "c_d".toList) none none [],
-     .node (some "e f(g)".toList) none (some "1e-05".toList) []]
+     .node (some "e f(g)".toList) none (some "1e-05".toList) [],
+     .node none none none []]
 
 example : Consistent false false false ∧ Consistent true false false ∧ Consistent true false true ∧ Consistent true true true := by
   simp [Consistent]
-example : Aux.LL (Aux.toRT {} exampleTree) := by
-  simp [exampleTree, Aux.toRT, Aux.toRTL, Aux.LL, Aux.LLL, Aux.tagOf, Aux.lenOf, rawTag, joinSp]
-example : DistinctCI (taxaOf {} (Aux.toRT {} exampleTree)) := by
-  simp [exampleTree, Aux.toRT, Aux.toRTL, taxaOf, taxaOfL, Aux.tagOf, Aux.lenOf, rawTag, joinSp, DistinctCI]
-  decide
-example : Carried {} exampleTree := by
-  simp [exampleTree, Carried, Carried.CarriedL]
-/-- all hypotheses of `newick_roundtrip`, `carried_tree` and `rooting_roundtrip` hold together on `exampleTree`,
-    and the conclusion is the concrete expected result -/
+
+/-- all hypotheses of `newick_roundtrip_tree` hold together on `exampleTree` (default options, rooted) -/
 example : parseText {} {} (writeTree {} 2 none exampleTree ++ ['\n']) =
     some ([⟨2, none, exampleTree⟩], ⟨[], ["a=b".toList, "c_d".toList, "e f(g)".toList], false⟩) := by
-  have exampleTree_ok : OkT {} exampleTree := by
+  have hok : OkT {} exampleTree := by
     simp [exampleTree, OkT, OkL, rawTag, joinSp, LenOk]
     decide
-  have hll : Aux.LL (Aux.toRT {} exampleTree) := by
-    simp [exampleTree, Aux.toRT, Aux.toRTL, Aux.LL, Aux.LLL, Aux.tagOf, Aux.lenOf, rawTag, joinSp]
-  have hd : DistinctCI (taxaOf {} (Aux.toRT {} exampleTree)) := by
-    simp [exampleTree, Aux.toRT, Aux.toRTL, taxaOf, taxaOfL, Aux.tagOf, Aux.lenOf, rawTag, joinSp, DistinctCI]
-    decide
-  have h := newick_roundtrip {} {} (by simp [Consistent]) 2 none exampleTree exampleTree_ok hll (by simp) hd
-  have hc := carried_tree {} {} (by simp) exampleTree (by simp [exampleTree, Carried, Carried.CarriedL])
-  have hr := rooting_roundtrip {} {} 2 (Or.inr rfl) none (Or.inl rfl) (Or.inl ⟨rfl, Or.inl rfl⟩)
-  rw [h, hc, hr]
-  simp [exampleTree, Aux.toRT, Aux.toRTL, taxaOf, taxaOfL, Aux.tagOf, Aux.lenOf, rawTag, joinSp, comments, treeComments]
-  decide
+  have hws : WritesSomething {} exampleTree := by
+    simp [WritesSomething, exampleTree, Aux.toRT, Aux.toRTL, Aux.isBlank]
+  have hd : DistinctCI Char.toLower (taxaOf {} (Aux.toRT {} exampleTree)) := by
+    simp [exampleTree, Aux.toRT, Aux.toRTL, taxaOf, taxaOfL, Aux.tagOf, Aux.lenOf, rawTag, joinSp, DistinctCI, lowerWith]
+  have h := newick_roundtrip_tree {} {} (by simp [Consistent]) (by simp) 2 (Or.inr rfl) (Or.inl ⟨rfl, Or.inl rfl⟩)
+    exampleTree hok hws (by simp [exampleTree, Carried, Carried.CarriedL]) hd
+  rw [h]
+  simp [exampleTree, Aux.toRT, Aux.toRTL, taxaOf, taxaOfL, Aux.tagOf, Aux.lenOf, rawTag, joinSp]
+
+/-- `token_roundtrip_any`: a TAXLABELS-style line (`default class`, newline follower) and an end-of-text follower -/
+example : ∃ q r', nextTok false (escape false true protectDefault "a-b c".toList ++ ['\n', ';']) = .tok "a-b c".toList q [] r' ∧
+    skipWs r' = skipWs ['\n', ';'] :=
+  token_roundtrip_any protectDefault (Or.inl rfl) false false false (by simp [Consistent]) _ (by simp) (by decide) _
+    (Or.inr ⟨'\n', [';'], rfl, Or.inr (by decide)⟩)
+example : ∃ q r', nextTok true (escape true false protectNewick "x_y".toList ++ []) = .tok "x_y".toList q [] r' ∧ skipWs r' = skipWs [] :=
+  token_roundtrip_any protectNewick (Or.inr rfl) true true true (by simp [Consistent]) _ (by simp) (by decide) _ (Or.inl rfl)
 
 end DendroModel.C02
